@@ -257,6 +257,17 @@ def const_str(src, name):
 
 
 ERRORS = []
+
+
+def tri(positive, negative, what):
+    """a boolean fact: True when the code has the recognised positive shape, False only when it has a recognised
+    NEGATIVE shape; anything else is 'shape not understood' (the section then falls back to the recorded value)"""
+    if positive:
+        return True
+    if negative:
+        return False
+    raise TranslateError(f"{what}: neither the known positive nor a known negative shape")
+
 DEFAULTS_PATH = os.path.join(os.path.dirname(os.path.abspath(__file__)), "translate_defaults.json")
 try:
     with open(DEFAULTS_PATH) as _f:
@@ -437,7 +448,11 @@ def main(out_path):
         fsi = fn_body(storage, "fetch_single_imported_audit")
         if not re.search(r"for\s+excluded\s+in\s+exclude\s*\{[^}]*audit_file\.audits\.remove\(excluded\)", fsi):
             raise TranslateError("exclude no longer removes the excluded crates' audits in fetch_single_imported_audit")
-        keeps = not re.search(r"for\s+excluded\s+in\s+exclude\s*\{[^}]*audit_file\.wildcard_audits\.remove\(excluded\)", fsi)
+        exl = re.search(r"for\s+excluded\s+in\s+exclude\s*\{([^}]*)\}", fsi)
+        exl_body = exl.group(1) if exl else ""
+        keeps = not tri(bool(re.fullmatch(r"\s*audit_file\.audits\.remove\(excluded\);\s*audit_file\.wildcard_audits\.remove\(excluded\);\s*", exl_body)),
+                        bool(exl) and "wildcard_audits" not in exl_body,
+                        "exclude loop of fetch_single_imported_audit")
         L.append("(* does `exclude` leave the excluded crates' wildcard audits in the import? *)")
         L.append(f"Definition EXCLUDE_KEEPS_WILDCARDS : bool := {'true' if keeps else 'false'}.")
         L.append("")
@@ -450,7 +465,9 @@ def main(out_path):
             raise TranslateError("compute_suggest no longer de-duplicates suggestions with dedup_by")
         op = m.end() - 1
         cp = match_brace(cs, op, "(", ")")
-        merges = bool(re.search(r"b\.suggested_criteria\.unioned_with\(\s*&a\.suggested_criteria\s*\)", cs[op:cp]))
+        merges = tri(bool(re.search(r"b\.suggested_criteria\.unioned_with\(\s*&a\.suggested_criteria\s*\)", cs[op:cp])),
+                     "suggested_criteria" not in cs[op:cp],
+                     "de-duplication closure of compute_suggest")
         L.append(f"Definition SUGGEST_DEDUP_MERGES_CRITERIA : bool := {'true' if merges else 'false'}.")
         L.append("")
 
@@ -510,21 +527,26 @@ def main(out_path):
     with section(L, "is the criteria table itself checked before a CriteriaMapper is built from it?"):
         pass
         criteria_rs = strip_comments(read("src/criteria.rs"))
+        has_fn = bool(re.search(r"\bfn\s+check_criteria_table\b", criteria_rs))
+        called_v = "check_criteria_table" in val
+        fsi = fn_body(storage, "fetch_single_imported_audit")
+        called_p = "check_criteria_table" in fsi
         table_fn_ok = False
-        if re.search(r"\bfn\s+check_criteria_table\b", criteria_rs):
+        if has_fn:
             cb = fn_body(criteria_rs, "check_criteria_table")
             table_fn_ok = bool(re.search(r"for\s+builtin\s+in\s+\[\s*SAFE_TO_RUN\s*,\s*SAFE_TO_DEPLOY\s*\]", cb)) and \
                 bool(re.search(r"criteria\.contains_key\(\s*builtin\s*\)", cb)) and \
                 bool(re.search(r"criteria\.len\(\)\s*\+\s*2\s*>\s*MAX_CRITERIA", cb)) and \
                 bool(re.search(r"Some\(\s*Mark::InProgress\s*\)\s*=>\s*\{?\s*return\s+Err", cb))
-        vchecks = table_fn_ok and bool(re.search(
+        vchecks = tri(table_fn_ok and bool(re.search(
             r"if\s+let\s+Err\(\s*message\s*\)\s*=\s*crate::criteria::check_criteria_table\(\s*&self\.audits\.criteria\s*\)\s*\{\s*"
-            r"errors\.push\(\s*StoreValidateError::InvalidCriteriaTable", val))
-        fsi = fn_body(storage, "fetch_single_imported_audit")
+            r"errors\.push\(\s*StoreValidateError::InvalidCriteriaTable", val)),
+            not has_fn or not called_v, "criteria-table check in Store::validate")
         i_chk = fsi.find("check_criteria_table(&audit_file.criteria)")
         i_new = fsi.find("CriteriaMapper::new(&audit_file.criteria)")
-        pchecks = table_fn_ok and 0 <= i_chk < i_new and bool(re.search(r"check_criteria_table\(&audit_file\.criteria\)\s*\.map_err\(", fsi)) \
-            and bool(re.search(r"\}\s*\)\s*\?\s*;\s*let\s+foreign_criteria_mapper", fsi))
+        pchecks = tri(table_fn_ok and 0 <= i_chk < i_new and bool(re.search(r"check_criteria_table\(&audit_file\.criteria\)\s*\.map_err\(", fsi))
+                      and bool(re.search(r"\}\s*\)\s*\?\s*;\s*let\s+foreign_criteria_mapper", fsi)),
+                      not has_fn or not called_p, "criteria-table check in fetch_single_imported_audit")
         L.append("(* Store::validate refuses an unusable criteria table (built-in redefined, too many criteria, implication cycle);")
         L.append("   fetch_single_imported_audit does the same for a peer's table before building its mapper *)")
         L.append(f"Definition VALIDATE_CHECKS_TABLE : bool := {'true' if vchecks else 'false'}.")
@@ -547,11 +569,13 @@ def main(out_path):
         loop_cb = match_brace(up, loop_ob)
         if not (loop_cb < i_lock):
             raise TranslateError("unpack_package: the completion marker is no longer written after the entry loop")
-        skips = bool(re.search(r"file_name\(\)\s*\.map_or\(\s*false\s*,\s*\|\w+\|\s*\w+\s*==\s*CARGO_OK_FILE\s*\)\s*\{\s*continue;", up[loop_ob:i_unpack]))
+        skips = tri(bool(re.search(r"file_name\(\)\s*\.map_or\(\s*false\s*,\s*\|\w+\|\s*\w+\s*==\s*CARGO_OK_FILE\s*\)\s*\{\s*continue;", up[loop_ob:i_unpack])),
+                    "CARGO_OK_FILE" not in up[loop_ob:i_unpack], "marker-entry skip in unpack_package")
         L.append("(* unpack_package: stale directory removed first, prefix check before unpack_in, marker after the loop *)")
         L.append("Definition UNPACK_MARKER_AFTER_LOOP : bool := true.")
         L.append(f"Definition UNPACK_SKIPS_MARKER_ENTRIES : bool := {'true' if skips else 'false'}.")
-        links = bool(re.search(r"entry_type\.is_symlink\(\)\s*\|\|\s*entry_type\.is_hard_link\(\)\s*\{\s*continue;", up[loop_ob:i_unpack]))
+        links = tri(bool(re.search(r"entry_type\.is_symlink\(\)\s*\|\|\s*entry_type\.is_hard_link\(\)\s*\{\s*continue;", up[loop_ob:i_unpack])),
+                    "is_symlink" not in up[loop_ob:i_unpack] and "is_hard_link" not in up[loop_ob:i_unpack], "link-entry skip in unpack_package")
         L.append(f"Definition UNPACK_SKIPS_LINK_ENTRIES : bool := {'true' if links else 'false'}.")
         fio = fn_body(storage, "fetch_is_ok")
         if not re.search(r"read_to_string\(fetch\.join\(CARGO_OK_FILE\)\)", fio) or "ok == CARGO_OK_BODY" not in fio:
@@ -578,16 +602,21 @@ def main(out_path):
         if not arm:
             raise TranslateError("Filesystem::open has no State::Exclusive arm")
         arm_body = open_body[arm.end() - 1:match_brace(open_body, arm.end() - 1)]
-        excl_arm = bool(re.search(r"acquire\s*\(", arm_body)) and "lock_exclusive(&f)" in arm_body
+        excl_arm = tri(bool(re.search(r"acquire\s*\(", arm_body)) and "lock_exclusive(&f)" in arm_body,
+                       "lock_shared" in arm_body or "acquire" not in arm_body, "State::Exclusive arm of Filesystem::open")
         sysmod = item_body(flock, r"#\[cfg\(unix\)\]\s*mod\s+sys\s*\{", "unix mod sys")
-        excl_sys = bool(re.search(r"flock\s*\(\s*file\s*,\s*libc::LOCK_EX\s*\)", fn_body(sysmod, "lock_exclusive"))) and \
-            bool(re.search(r"flock\s*\(\s*file\s*,\s*libc::LOCK_EX\s*\|\s*libc::LOCK_NB\s*\)", fn_body(sysmod, "try_lock_exclusive")))
+        lx, tlx = fn_body(sysmod, "lock_exclusive"), fn_body(sysmod, "try_lock_exclusive")
+        excl_sys = tri(bool(re.search(r"flock\s*\(\s*file\s*,\s*libc::LOCK_EX\s*\)", lx)) and
+                       bool(re.search(r"flock\s*\(\s*file\s*,\s*libc::LOCK_EX\s*\|\s*libc::LOCK_NB\s*\)", tlx)),
+                       "LOCK_SH" in lx or "LOCK_SH" in tlx or "LOCK_EX" not in lx or "LOCK_EX" not in tlx,
+                       "flock flags of lock_exclusive / try_lock_exclusive")
         # acquire(): a failed lock attempt must end in the blocking call (or an error), never in Ok without the lock
         acq = fn_body(flock, "acquire")
-        blocks = bool(re.search(r"lock_block\(\)\?;\s*return\s+Ok\(\(\)\);", acq)) and \
-            bool(re.search(r"if\s*!\s*error_contended\(&e\)\s*\{\s*return\s+Err", acq))
+        blocks = tri(bool(re.search(r"lock_block\(\)\?;\s*return\s+Ok\(\(\)\);", acq)) and
+                     bool(re.search(r"if\s*!\s*error_contended\(&e\)\s*\{\s*return\s+Err", acq)),
+                     "lock_block()" not in acq, "blocking fallback of flock::acquire")
         drop_impl = item_body(flock, r"\bimpl\s+Drop\s+for\s+FileLock\s*\{", "impl Drop for FileLock")
-        drop_unlocks = "unlock(&f)" in drop_impl
+        drop_unlocks = tri("unlock(&f)" in drop_impl, "unlock" not in drop_impl, "Drop for FileLock")
 
         def exclusive(fn):
             return lock_state(fn) == "Exclusive" and excl_arm and excl_sys and blocks
@@ -645,7 +674,8 @@ def main(out_path):
             raise TranslateError("Cache::acquire no longer locks CACHE_VET_LOCK")
         i_lock = m.start()
         first_io = min([x for x in (cache_acq.find("File::open("), cache_acq.find("load_toml("), cache_acq.find("load_json(")) if x >= 0] or [-1])
-        cache_lock_first = 0 <= i_lock < first_io and bool(re.search(r"_lock:\s*Some\(lock\)", cache_acq))
+        cache_lock_first = tri(0 <= i_lock < first_io and bool(re.search(r"_lock:\s*Some\(lock\)", cache_acq)),
+                               0 <= first_io < i_lock or "_lock: None" in cache_acq.replace("  ", " "), "lock-before-read order of Cache::acquire")
         cache_excl = exclusive(m.group(1)) and cache_lock_first
         cache_struct = item_body(storage, r"\bpub\s+struct\s+Cache\s*\{", "struct Cache")
         if not re.search(r"_lock:\s*Option<FileLock>", cache_struct):
@@ -849,8 +879,9 @@ def main(out_path):
             raise TranslateError("policy keys are no longer parsed by split_once(VERSION_SEPARATOR) + VetVersion::from_str")
         if const_str(polmod, "VERSION_SEPARATOR") != ":":
             raise TranslateError("policy key separator is no longer ':'")
-        full = bool(re.search(r"for\s*\(\s*version\s*,\s*entry\s*\)\s*in\s+version\s*\{\s*ret\s*\.\s*insert\(\s*"
-                              r"format!\(\s*\"\{name\}\{VERSION_SEPARATOR\}\{version\}\"\s*\)\s*,\s*entry\s*,?\s*\)", polmod))
+        full = tri(bool(re.search(r"for\s*\(\s*version\s*,\s*entry\s*\)\s*in\s+version\s*\{\s*ret\s*\.\s*insert\(\s*"
+                                  r"format!\(\s*\"\{name\}\{VERSION_SEPARATOR\}\{version\}\"\s*\)\s*,\s*entry\s*,?\s*\)", polmod)),
+                   bool(re.search(r"format!\([^)]*version\.semver", polmod)), "key of a versioned policy entry")
         L.append("(* the key of a versioned policy entry is written from the whole VetVersion (semver and git revision) *)")
         L.append(f"Definition POLICY_KEY_USES_FULL_VERSION : bool := {'true' if full else 'false'}.")
         L.append("")
